@@ -21,7 +21,7 @@ def hexital(rows: List[Dict], members: list, cfg: Optional[Dict] = None) -> Hexi
     cfg = cfg or {}
     kw: Dict[str, Any] = {}
     if cfg.get("tf"):
-        kw["timeframe"] = cfg["tf"]
+        kw["timeframe"] = gen.tf_arg(cfg["tf"], len(rows))
     if cfg.get("fill"):
         kw["timeframe_fill"] = True
     if cfg.get("ha"):
